@@ -152,6 +152,7 @@ def run_case(case) -> dict:
     rec["lm"] = list(c["lm"]) if c["lm"] else [1970, 1, 1, 0, 0, 0, 0]
     # send_file over a reader that is neither a path nor a BytesIO does not know the length
     rec["len_known"] = not (c["api"] == "sf" and c["shape"] == "pipe")
+    rec["pre_cr"] = bool((c.get("pre") or {}).get("cr"))
     out = {"status": 0, "exc": "", "cr_n": 0, "cr": [], "cl_n": 0, "cl": [], "r_etag_n": 0, "r_etag": [], "r_lm_n": 0, "r_lm": [],
            "body": [], "modified": False}
     env = _environ(c)
@@ -176,17 +177,39 @@ def run_case(case) -> dict:
                     kw["last_modified"] = lm_datetime(c["lm"])
                 if c["etag"]:
                     kw["etag"] = c["etag"][0]     # send_file only sets strong tags
+                if c.get("cls") is not None:
+                    kw["response_class"] = _response_class(c["cls"])   # send_file pre-sets Content-Length of the whole file
                 resp = send_file(fobj, env, mimetype="application/octet-stream", conditional=True, **kw)
                 if c["shape"] == "pipe":
                     # size unknown: send_file cannot serve ranges; recorded like every other case
                     pass
             else:
-                resp = Response(_body(c, env), mimetype="application/octet-stream",
-                                direct_passthrough=c["shape"] in ("file", "pipe"))
-                if c["etag"]:
-                    resp.set_etag(c["etag"][0], weak=c["etag"][1])
-                if c["lm"]:
-                    resp.last_modified = lm_datetime(c["lm"])
+                pre = c.get("pre") or {}
+                cls = _response_class(c["cls"]) if c.get("cls") is not None else Response
+                kwargs = {"direct_passthrough": c["shape"] in ("file", "pipe")}
+                if not (c.get("cls") or {}).get("default_mimetype"):
+                    kwargs["mimetype"] = "application/octet-stream"
+                if pre.get("via") == "ctor":         # validators handed to the constructor as plain headers by the app
+                    from werkzeug.http import http_date, quote_etag
+
+                    hs = []
+                    if c["etag"]:
+                        hs.append(("ETag", quote_etag(c["etag"][0], c["etag"][1])))
+                    if c["lm"]:
+                        hs.append(("Last-Modified", http_date(lm_datetime(c["lm"]))))
+                    kwargs["headers"] = hs
+                resp = cls(_body(c, env), **kwargs)
+                if pre.get("via") != "ctor":
+                    if c["etag"]:
+                        resp.set_etag(c["etag"][0], weak=c["etag"][1])
+                    if c["lm"]:
+                        resp.last_modified = lm_datetime(c["lm"])
+                if pre.get("cl"):                    # Content-Length of the complete representation
+                    resp.headers["Content-Length"] = str(c["length"])
+                if pre.get("cr"):                    # an own Content-Range
+                    resp.headers["Content-Range"] = pre["cr"]
+                if pre.get("ar"):
+                    resp.headers["Accept-Ranges"] = pre["ar"]
                 resp.make_conditional(env, accept_ranges=True, complete_length=c["length"])
             status, headers, body = _run_wsgi(resp, env)
             out["status"] = status
@@ -825,4 +848,78 @@ def etag_cases(wide=True, rng=None):
             cases.append({"op": "etag", "via": rng.choice(["add_etag", "freeze"]), "weak": False, "preset": False, "overwrite": False,
                           "body1": b1, "body2": b2, "cuts1": sorted(rng.sample(range(n + 1), min(2, n + 1)))[:1],
                           "cuts2": [rng.randint(0, n)], "gen": rng.random() < 0.5})
+    return cases
+
+
+# ---------------------------------------------------------------------------------- response classes / pre-set headers
+def _response_class(flags):
+    """A Response subclass that sets the documented class attributes as `flags` says."""
+    from werkzeug.wrappers import Response
+
+    attrs = {}
+    if "ascl" in flags:
+        attrs["automatically_set_content_length"] = bool(flags["ascl"])
+    if "isc" in flags:
+        attrs["implicit_sequence_conversion"] = bool(flags["isc"])
+    if flags.get("default_mimetype"):
+        attrs["default_mimetype"] = flags["default_mimetype"]
+    if flags.get("default_status"):
+        attrs["default_status"] = 200
+    return type("VerifResponse", (Response,), attrs)
+
+
+CLS_VARIANTS = [{}, {"ascl": False}, {"isc": False}, {"ascl": False, "isc": False}, {"default_mimetype": "text/html"},
+                {"ascl": False, "default_mimetype": "application/json"}, {"isc": False, "default_mimetype": "text/plain"}]
+
+
+def preset_cases(lengths=(1, 3), wide=True, rng=None):
+    """make_conditional / send_file(response_class=..) with Response subclasses (class attributes set differently) and with
+    responses that already carry Content-Length (complete representation), Content-Range, Accept-Ranges, ETag /
+    Last-Modified before the call (op "pre", clauses Preset/..)."""
+    cases = []
+    lm0 = BASE
+    lm = [lm0.year, lm0.month, lm0.day, lm0.hour, lm0.minute, lm0.second, 0]
+    for n in lengths:
+        ranges = [None, "bytes=0-0", "bytes=1-", "bytes=-1", f"bytes=0-{n + 3}", f"bytes={n - 1}-{n - 1}", "bytes=9-", "bytes=0-0,2-2", "bytes=x"]
+        if not wide:
+            ranges = ranges[:5] + ranges[6:7]
+        pres = [{"cl": True}, {"cr": f"bytes 0-{n - 1}/{n}"}, {"cl": True, "cr": "bytes */%d" % n, "ar": "none"}, {"ar": "bytes"},
+                {"cl": True, "ar": "bytes", "via": "ctor"}, {}]
+        if wide:
+            pres += [{"cr": "bytes 0-0/99"}, {"cl": True, "cr": f"bytes 0-{n - 1}/{n}", "ar": "bytes"}, {"via": "ctor"}]
+        variants = CLS_VARIANTS if wide else CLS_VARIANTS[:4] + CLS_VARIANTS[5:6]
+        for ci, cls in enumerate(variants):
+            for pi, pre in enumerate(pres):
+                if not cls and not pre:
+                    continue
+                for shape in SHAPES:
+                    for ri, rg in enumerate(ranges):
+                        for method in (("GET", "HEAD", "POST") if wide and ri in (1, 2) else ("GET",)):
+                            c = {"op": "pre", "api": "mc", "method": method, "range": rg, "length": n, "shape": shape, "block": 2,
+                                 "cls": dict(cls), "pre": dict(pre)}
+                            k = (ci + pi + ri) % 4
+                            if k == 1 or pre.get("via") == "ctor":
+                                c.update(etag=["abc", False], lm=lm)
+                                if ri % 3 == 0 and rg is not None:
+                                    c["ifr"] = tag_text("abc", False) if ri % 2 else tag_text("xyz", False)
+                                elif ri % 3 == 1:
+                                    c["inm"] = tag_text("abc", ri % 2 == 0) if (ci + pi) % 2 else tag_text("xyz", False)
+                            cases.append(c)
+        # send_file(response_class=..): Content-Length of the whole file is set before make_conditional
+        for cls in variants:
+            for shape in ("file",):
+                for rg in ranges:
+                    for method in ("GET", "HEAD"):
+                        cases.append({"op": "pre", "api": "sf", "method": method, "range": rg, "length": n, "shape": shape, "block": 2,
+                                      "cls": dict(cls), "pre": {}})
+    if rng is not None:
+        for _ in range(3000 if wide else 300):
+            c = random_case(rng, max_len=12)
+            if c["api"] == "sf" and c["shape"] == "pipe":
+                c["api"] = "mc"
+            n = c["length"]
+            c.update(op="pre", cls=dict(rng.choice(CLS_VARIANTS)),
+                     pre={} if c["api"] == "sf" else rng.choice([{"cl": True}, {"cl": True, "ar": "bytes"}, {"cr": f"bytes 0-{max(n, 1) - 1}/{n}"},
+                                                                 {"cl": True, "cr": "bytes */7"}, {"via": "ctor"}, {}]))
+            cases.append(c)
     return cases
